@@ -171,7 +171,7 @@ def run(chk):
                 "present/absent, empty 2D cells, both calibration formats): observation = (nBytes - written, consumed - "
                 "written) for the block, nBytes of the decoded block, and (nBytes, written, consumed) of every nested "
                 "item; plus the 8 blocks of the BTS capture against their jump-table sizes; compared with the model's "
-                "(size, |enc|, consumed); also: blocks built, used (sized / encoded / compared / printed), then edited IN PLACE to another content of the same shape and used again; blocks built from arrays with the same values but another memory layout (column-major, strided, reversed, big-endian, read-only, unaligned); blocks that have just refused a call (bulk assignment with a bad element, taken / out-of-range channel, wrong length, wrong kind, index out of range) and then accept one more item; non-trivial = >=1 item and (a gap or >=2 items)")
+                "(size, |enc|, consumed); also: blocks built, used (sized / encoded / compared / printed), then edited IN PLACE to another content of the same shape and used again; blocks built from arrays with the same values but another memory layout (column-major, strided, reversed, big-endian, read-only, unaligned); blocks with a frame count of zero (implementation alone); blocks that have just refused a call (bulk assignment with a bad element, taken / out-of-range channel, wrong length, wrong kind, index out of range) and then accept one more item; non-trivial = >=1 item and (a gap or >=2 items)")
     corpus = codec.load_corpus("C02")
     check_cases(chk, corpus)
     n = 1500 if chk.tier == "quick" else 25000
@@ -187,7 +187,57 @@ def run(chk):
     codec.check_layouts(chk, "C02", 240 if chk.tier == "quick" else 3000)
     boundary_labels(chk)
     after_refused_calls(chk)
+    zero_frame_blocks(chk)
     check_capture(chk)
+
+
+def zero_frame_blocks(chk):
+    """blocks with a frame count of ZERO (a trial set up but not recorded) and 0-3 tracks: outside the valid blocks of
+    the model (C01: frame count >= 1), so the implementation is judged alone — declared size = bytes written = bytes
+    consumed, for the block and for each track"""
+    import numpy as np
+    from basictdf.tdfData3D import Data3D, MarkerTrack
+    from basictdf.tdfEMG import EMG, EMGTrack
+    from basictdf.tdfForce3D import ForceTorque3D, ForceTorqueTrack
+    from basictdf.tdfForcePlatformsData import ForcePlatformData, ForcePlatformsDataBlock
+    z3, e3 = np.zeros(3, dtype="<f4"), np.eye(3, dtype="<f4")
+
+    def empty(cols):
+        return np.zeros((0, cols), dtype="<f4") if cols else np.zeros((0,), dtype="<f4")
+    for kind in ("D3", "FT", "EM", "PD"):
+        for ntr in (0, 1, 2, 3):
+            if kind == "D3":
+                b = Data3D(100, 0, z3, e3, z3)
+                for i in range(ntr):
+                    b.add_track(MarkerTrack("m%d" % i, empty(3)))
+            elif kind == "FT":
+                b = ForceTorque3D(100, 0, z3, e3, z3)
+                for i in range(ntr):
+                    b.add_track(ForceTorqueTrack("f%d" % i, empty(3), empty(3), empty(3)))
+            elif kind == "EM":
+                b = EMG(1000, 0)
+                for i in range(ntr):
+                    b.addSignal(EMGTrack("s%d" % i, empty(0)))
+            else:
+                b = ForcePlatformsDataBlock(0.0, 100, 0)
+                for i in range(ntr):
+                    b.add_platform(ForcePlatformData(empty(2), empty(3), empty(0)))
+            chk.note_case(("zero frames", kind, ntr), ntr >= 1)
+            chk.count("zero-frame block: " + kind)
+            what = {"kind": kind, "nFrames": 0, "tracks": ntr}
+            try:
+                nb = int(b.nBytes)
+                f = io.BytesIO()
+                b._write(f)
+                raw = f.getvalue()
+                stream = io.BytesIO(raw + b"\xAA" * 16)
+                type(b)._build(stream, b.format.value)
+                consumed = stream.tell()
+            except Exception as e:
+                chk.violation("%s with 0 frames and %d tracks cannot be sized / written / decoded: %s" % (kind, ntr, common.exc_info(e)), what, True)
+                continue
+            if not (nb == len(raw) == consumed):
+                chk.violation("%s with 0 frames and %d tracks: nBytes=%d, bytes written=%d, bytes consumed=%d" % (kind, ntr, nb, len(raw), consumed), what, True)
 
 
 def after_refused_calls(chk):
